@@ -32,21 +32,29 @@ fn norm_str(s: &str) -> String {
 }
 
 /// C11: "the emitted reference is the fully qualified crate path of exactly that definition"
+fn is_void(t: &Type) -> bool {
+    matches!(t, Type::Raw(p) if p.len() == 1 && p.last().map(|s| s.as_str()) == Some("void"))
+}
+fn render_pointee(t: &Type) -> Option<String> {
+    // what a pointer points to has no layout consequence; `void` is C's opaque pointee
+    if is_void(t) { Some("::std::ffi::c_void".to_string()) } else { render_type(t) }
+}
 pub fn render_type(t: &Type) -> Option<String> {
     Some(match t {
         Type::Unresolved(_) => return None,
         Type::Raw(p) => {
             let segs: Vec<&str> = p.iter().map(|s| s.as_str()).collect();
             if segs == ["void"] {
-                "::std::ffi::c_void".to_string()
+                // by value `void` has size 0 and alignment 1 in the registry (C01/C02): the unit type
+                "()".to_string()
             } else if segs.len() > 1 {
                 format!("crate::{}", segs.join("::"))
             } else {
                 segs.join("::")
             }
         }
-        Type::ConstPointer(t) => format!("*const {}", render_type(t)?),
-        Type::MutPointer(t) => format!("*mut {}", render_type(t)?),
+        Type::ConstPointer(t) => format!("*const {}", render_pointee(t)?),
+        Type::MutPointer(t) => format!("*mut {}", render_pointee(t)?),
         Type::Array(t, n) => format!("[{}; {}]", render_type(t)?, n),
         Type::Function(cc, args, ret) => {
             let mut a = vec![];
@@ -498,6 +506,51 @@ fn hierarchy(st: &ResolvedSemanticState, td: &TypeDefinition, prefix: &[String],
     }
 }
 
+// the pointer size of the build (passed by the caller; the resolved state does not expose it)
+thread_local! { pub static POINTER_SIZE: std::cell::Cell<Option<usize>> = std::cell::Cell::new(None); }
+fn pointer_size(_st: &ResolvedSemanticState) -> Option<u128> {
+    POINTER_SIZE.with(|p| p.get()).map(|p| p as u128)
+}
+/// size pyxis uses for a type (registry sizes for named types)
+fn pyxis_size(st: &ResolvedSemanticState, t: &Type, ptr: u128) -> Option<u128> {
+    match t {
+        Type::Unresolved(_) => None,
+        Type::Raw(p) => st.type_registry().get(p).and_then(|d| d.size()).map(|s| s as u128),
+        Type::ConstPointer(_) | Type::MutPointer(_) | Type::Function(..) => Some(ptr),
+        Type::Array(t, n) => pyxis_size(st, t, ptr).map(|s| s * (*n as u128)),
+    }
+}
+/// size and alignment rustc gives the *emitted* type (x86 / x86_64 *-pc-windows-msvc): primitives as in the Rust
+/// reference, by-value `void` must be a zero-sized type (`()`; `c_void` is one byte), pointers and function pointers are
+/// pointer-sized, arrays are element size times length, emitted structs / enums and declared extern types
+/// have the size and alignment recorded for them (each emitted item is checked on its own)
+fn rust_size_align(st: &ResolvedSemanticState, t: &Type, ptr: u128) -> Option<(u128, u128)> {
+    match t {
+        Type::Unresolved(_) => None,
+        Type::Raw(p) => {
+            let segs: Vec<&str> = p.iter().map(|s| s.as_str()).collect();
+            if segs.len() == 1 {
+                let prim = match segs[0] {
+                    "void" => Some((0, 1)),
+                    "bool" | "u8" | "i8" => Some((1, 1)),
+                    "u16" | "i16" => Some((2, 2)),
+                    "u32" | "i32" | "f32" => Some((4, 4)),
+                    "u64" | "i64" | "f64" => Some((8, 8)),
+                    "u128" | "i128" => Some((16, 16)),
+                    _ => None,
+                };
+                if prim.is_some() {
+                    return prim;
+                }
+            }
+            let d = st.type_registry().get(p)?;
+            Some((d.size()? as u128, d.alignment()? as u128))
+        }
+        Type::ConstPointer(_) | Type::MutPointer(_) | Type::Function(..) => Some((ptr, ptr)),
+        Type::Array(t, n) => rust_size_align(st, t, ptr).map(|(s, a)| (s * (*n as u128), a)),
+    }
+}
+
 fn check_type(out: &mut Vec<Viol>, st: &ResolvedSemanticState, ix: &FileIndex, d: &ItemDefinition, isr: &ItemStateResolved, td: &TypeDefinition) {
     let name = d.path.last().map(|s| s.as_str().to_string()).unwrap_or_default();
     let ss = ix.structs.get(&name).map(|v| v.as_slice()).unwrap_or(&[]);
@@ -576,6 +629,41 @@ fn check_type(out: &mut Vec<Viol>, st: &ResolvedSemanticState, ix: &FileIndex, d
                 v(out, &["C17"], format!("{name}.{}: field emitted {} but region is {:?}", r.name.clone().unwrap_or_default(), if is_pub(&f.vis) { "pub" } else { "private" }, r.visibility));
             }
             check_doc(out, &format!("field {name}.{}", r.name.clone().unwrap_or_default()), &f.attrs, r.doc.as_deref(), &[]);
+        }
+    }
+    // ---- C01 / C02 under the reference repr(C) algorithm (Rust reference, "The C representation"): lay the
+    // emitted fields out as rustc does and compare with the offsets / size / alignment pyxis resolved
+    if let Some(ptr) = pointer_size(st) {
+        let mut off: u128 = 0;
+        let mut max_align: u128 = 1;
+        let mut pyx_off: u128 = 0;
+        let mut decidable = true;
+        for r in &td.regions {
+            let (Some((rsz, ral)), Some(psz)) = (rust_size_align(st, &r.type_ref, ptr), pyxis_size(st, &r.type_ref, ptr)) else { decidable = false; break };
+            let al = if td.packed { 1 } else { ral };
+            if al == 0 { decidable = false; break; }
+            off = (off + al - 1) / al * al;
+            if off != pyx_off {
+                v(out, &["C01"], format!("{name}.{}: rustc places the emitted field at offset {off}, pyxis resolved offset {pyx_off}", r.name.clone().unwrap_or_default()));
+                break;
+            }
+            if rsz != psz {
+                v(out, &["C01", "C02"], format!("{name}.{}: the emitted field type `{}` has size {rsz} in Rust, pyxis resolved size {psz}", r.name.clone().unwrap_or_default(), render_type(&r.type_ref).unwrap_or_default()));
+                break;
+            }
+            off += rsz;
+            pyx_off += psz;
+            max_align = max_align.max(al);
+        }
+        if decidable && !out.iter().any(|x| x.what.starts_with(&format!("{name}.")) && x.what.contains("rustc places") || x.what.contains("has size")) {
+            let al = if td.packed { 1 } else { max_align.max(isr.alignment as u128) };
+            let total = (off + al - 1) / al * al;
+            if total != isr.size as u128 {
+                v(out, &["C02"], format!("{name}: size_of the emitted struct is {total} under repr(C), pyxis resolved size {}", isr.size));
+            }
+            if al != isr.alignment as u128 {
+                v(out, &["C02"], format!("{name}: align_of the emitted struct is {al} under repr(C), pyxis resolved alignment {}", isr.alignment));
+            }
         }
     }
     // ---- C02: the emitted size check uses the resolved size
@@ -858,8 +946,8 @@ fn attr_int(attrs: &grammar::Attributes, name: &str) -> Option<isize> {
 /// of the same module, pointers and arrays of those); None = not decided here
 fn render_grammar_type(st: &ResolvedSemanticState, key: &ItemPath, t: &grammar::Type) -> Option<String> {
     Some(match t {
-        grammar::Type::ConstPointer(t) => format!("*const {}", render_grammar_type(st, key, t)?),
-        grammar::Type::MutPointer(t) => format!("*mut {}", render_grammar_type(st, key, t)?),
+        grammar::Type::ConstPointer(t) => format!("*const {}", render_grammar_pointee(st, key, t)?),
+        grammar::Type::MutPointer(t) => format!("*mut {}", render_grammar_pointee(st, key, t)?),
         grammar::Type::Array(t, n) => format!("[{}; {}]", render_grammar_type(st, key, t)?, n),
         grammar::Type::Ident(i) => {
             let n = i.as_str();
@@ -876,6 +964,12 @@ fn render_grammar_type(st: &ResolvedSemanticState, key: &ItemPath, t: &grammar::
     })
 }
 
+fn render_grammar_pointee(st: &ResolvedSemanticState, key: &ItemPath, t: &grammar::Type) -> Option<String> {
+    match t {
+        grammar::Type::Ident(i) if i.as_str() == "void" => Some("::std::ffi::c_void".to_string()),
+        _ => render_grammar_type(st, key, t),
+    }
+}
 /// items of a prologue / epilogue text, when it is a sequence of Rust items
 fn items_of(text: &str) -> Option<Vec<syn::Item>> {
     syn::parse_file(text).ok().map(|f| f.items)
